@@ -119,7 +119,7 @@ def purity_oracle(v):
 
 def run(ctx):
     thorough = ctx["tier"] == "thorough"
-    n = 60000 if thorough else 2500
+    n = 60000 if thorough else 2500 * ctx.get('scale', 1)
     violations, samples = [], []
     dist = collections.Counter()
     distinct = set()
